@@ -67,6 +67,30 @@ def stairs(i):
     return (i, 40 - 3 * i, 42 - 3 * i)
 
 
+def fstring_token(ex, i, segs):
+    """an f-string token: `segs` is a list of ("lit", text) | ("expr", [template items]); every
+    embedded expression gets its own token stream (served to the nested compiler by the tokenizer
+    model), identified through the tag of the segment's string"""
+    T = ex.P.types
+    idx = T.variant_index("Token", "FStringLit")
+    items = []
+    streams = ex.notes.setdefault("nested", [])
+    for kind, body in segs:
+        if kind == "lit":
+            si = T.variant_index("FStringSegment", "Lit")
+            items.append(VAdt("FStringSegment", si, {si: [VOpaque("String", ex.new_vid(), "lit:" + body)]}, ex.new_vid()))
+        else:
+            k = len(streams)
+            toks = template(*body)(ex) if not callable(body) else body(ex)
+            streams.append({"toks": toks, "pos": 0})
+            si = T.variant_index("FStringSegment", "Expr")
+            items.append(VAdt("FStringSegment", si, {si: [VOpaque("String", ex.new_vid(), f"fexpr:{k}")]}, ex.new_vid()))
+    seq = VSeq("FStringSegment", len(items), items, ex.new_vid())
+    t = VAdt("Token", idx, {idx: [seq]}, ex.new_vid())
+    rng = VStruct("SourceRange", [TP.loc(0, 3 * i), TP.loc(0, 3 * i + 2)])
+    return VStruct("TokenWithLoc", [t, rng], ex.new_vid())
+
+
 def template(*items, layout=None):
     def build(ex):
         toks = build_tokens(ex)
@@ -80,7 +104,9 @@ def template(*items, layout=None):
     def build_tokens(ex):
         toks = []
         for i, it in enumerate(items):
-            if isinstance(it, (tuple, list)):
+            if isinstance(it, dict):
+                toks.append(fstring_token(ex, i, it["fstring"]))
+            elif isinstance(it, (tuple, list)):
                 toks.append(mk_token(ex, i, None, sym=list(it)))
             elif it == "#":
                 v = ex.fresh("u64", f"lit{i}")
@@ -96,10 +122,10 @@ def template(*items, layout=None):
     return build
 
 
-def token_facts(ex, A):
+def token_facts(ex, A, toks=None):
     """resolve every token under the reference's assumptions -> [(kind, payload)]"""
     out = []
-    for tw in ex.notes["toks"]:
+    for tw in (ex.notes["toks"] if toks is None else toks):
         t = tw.fields[0]
         names = [v[0] for v in ex.adt_variants(t.ty)]
         if isinstance(t.discr, int):
@@ -116,19 +142,35 @@ def token_facts(ex, A):
             out.append((k, getattr(f[0], "vid", None)))
         elif k == "IntLit":
             out.append((k, f[0]))
+        elif k == "FStringLit":
+            segs = []
+            for sg in f[0].items:
+                sk = variant(ex, sg)
+                sv = sg.fields[sg.discr][0]
+                if sk == "Lit":
+                    segs.append(("lit", sv.vid))
+                else:
+                    kk = int(sv.tag.split(":")[1])
+                    segs.append(("expr", token_facts(ex, A, ex.notes["nested"][kk]["toks"])))
+            out.append((k, segs))
         else:
             out.append((k, None))
     return out
+
+
+def all_token_lists(ex):
+    return [ex.notes["toks"]] + [st["toks"] for st in ex.notes.get("nested", [])]
 
 
 def ident_names(ex):
     """vid -> spelling of every identifier token of the template"""
     out = {}
     ii = ex.P.types.variant_index("Token", "Ident")
-    for tw in ex.notes["toks"]:
-        f = tw.fields[0].fields.get(ii)
-        if f and getattr(f[0], "tag", None):
-            out[f[0].vid] = f[0].tag.split(":", 1)[1]
+    for toks in all_token_lists(ex):
+        for tw in toks:
+            f = tw.fields[0].fields.get(ii)
+            if f and getattr(f[0], "tag", None):
+                out[f[0].vid] = f[0].tag.split(":", 1)[1]
     return out
 
 
@@ -144,6 +186,7 @@ class N(dict):
 
 RELOPS = ("LessThan", "LessEqual", "EqualEqual", "NotEqual", "GreaterEqual", "GreaterThan", "In")
 LITERALS = ("IntLit", "UIntLit", "FloatLit", "StringLit", "ByteStringLit", "BoolLit", "Null")
+# integer literals of nested streams are numbered after the outer tokens: (stream, index)
 
 
 class RefParser:
@@ -155,10 +198,11 @@ class RefParser:
        member  = primary {'.' IDENT | '(' [exprs] ')' | '[' expr ']'}
        primary = IDENT | literal | '(' expr ')' | '[' [exprs] [','] ']' | '{' [inits] [','] '}'"""
 
-    def __init__(self, toks, names=None):
+    def __init__(self, toks, names=None, stream=None):
         self.t = toks
         self.p = 0
         self.names = names            # identifier payload -> spelling (None: payloads are spellings)
+        self.stream = stream          # None: the outer token sequence; else the path of an embedded one
 
     def spelling(self, i):
         v = self.t[i][1]
@@ -286,7 +330,20 @@ class RefParser:
             return N(k="ident", lo=i, hi=i, name=self.t[i][1])
         if k in LITERALS:
             i = self.take()
-            return N(k="lit", lo=i, hi=i, tok=i)
+            return N(k="lit", lo=i, hi=i, tok=i if self.stream is None else (self.stream, i))
+        if k == "FStringLit":
+            i = self.take()
+            segs = []
+            for j, (sk, body) in enumerate(self.t[i][1]):
+                if sk == "lit":
+                    segs.append(("lit", body))
+                else:
+                    sub = RefParser(body, self.names, stream=(self.stream or ()) + (i, j))
+                    tree = sub.expr()
+                    if sub.p != len(body):
+                        raise Reject("an embedded expression is followed by more tokens")
+                    segs.append(("expr", tree))
+            return N(k="fstr", lo=i, hi=i, segs=segs)
         if k == "LParen":
             lo = self.take()
             e = self.expr()
@@ -344,6 +401,8 @@ def show(n):
         return "[" + ", ".join(show(x) for x in n["items"]) + "]"
     if k == "map":
         return "{" + ", ".join(f"{show(a)}: {show(b)}" for a, b in n.inits) + "}"
+    if k == "fstr":
+        return "f'" + "".join("<text>" if a == "lit" else "{" + show(b) + "}" for a, b in n.segs) + "'"
     if k == "match":
         return "match " + show(n.s) + " {" + ", ".join(("_" if c.pat["k"] == "any" else c.pat.op + " " + show(c.pat.e)) + ": " + show(c.arm) for c in n.cases) + "}"
     if k == "member":
@@ -443,6 +502,8 @@ def real_tree(ex, v, tok_of_payload):
         if b == "Primary" and name == "Literal":
             lit = f[0]
             pay = lit.fields.get(lit.discr, [])
+            if variant(ex, lit) == "FStringList":
+                return N(k="fstr", segs=[("lit" if variant(ex, sg) == "Lit" else "expr", getattr(sg.fields[sg.discr][0], "vid", None)) for sg in pay[0].items])
             return N(k="lit", tok=tok_of_payload(pay[0]) if pay else None, what=variant(ex, lit))
         if b == "Primary" and name in ("ListConstruction", "ObjectInit"):
             inner = real_tree(ex, f[0], tok_of_payload)
@@ -470,12 +531,56 @@ def span_of(node):
     return tuple((p.fields[TP.LOC_IDX["line"]].concrete(), p.fields[TP.LOC_IDX["col"]].concrete()) for p in rng.fields[:2])
 
 
+def stream_of(ex, recv):
+    """the token stream a tokenizer object serves: the template's, or the one of an embedded
+    expression of an f-string (the nested compiler's `StringTokenizer`)"""
+    v = unref_all(ex, recv)
+    tag = getattr(v, "tag", None) or ""
+    if tag.startswith("nested:"):
+        return ex.notes["nested"][int(tag.split(":")[1])]
+    if "main_stream" not in ex.notes:
+        ex.notes["main_stream"] = None
+    return None
+
+
+def m_peek(ex, callee, args, ret_ty, frame):
+    st = stream_of(ex, args[0])
+    if st is None:
+        return TP.m_peek(ex, callee, args, ret_ty, frame)
+    if st["pos"] >= len(st["toks"]):
+        return TP.opt_result(ex, ret_ty)
+    return TP.opt_result(ex, ret_ty, VRef(ex.heap(st["toks"][st["pos"]], "nested.tok")))
+
+
+def m_next(ex, callee, args, ret_ty, frame):
+    st = stream_of(ex, args[0])
+    if st is None:
+        return TP.m_next(ex, callee, args, ret_ty, frame)
+    if st["pos"] >= len(st["toks"]):
+        return TP.opt_result(ex, ret_ty)
+    st["pos"] += 1
+    return TP.opt_result(ex, ret_ty, vcopy(st["toks"][st["pos"] - 1]))
+
+
+def m_with_input(ex, callee, args, ret_ty, frame):
+    """StringTokenizer::with_input(text) on the text of an embedded expression: a tokenizer that
+    serves that expression's token template"""
+    v = unref_all(ex, args[0])
+    tag = getattr(v, "tag", None) or ""
+    if not tag.startswith("fexpr:"):
+        raise engine.Unsupported("StringTokenizer::with_input on a text that is not an embedded expression of a template")
+    k = int(tag.split(":")[1])
+    ex.notes["nested"][k]["pos"] = 0
+    return VOpaque("StringTokenizer", ex.new_vid(), f"nested:{k}")
+
+
 def m_location(ex, callee, args, ret_ty, frame):
     """Tokenizer::location(): the end of the last token handed out"""
-    pos = ex.notes["pos"]
+    st = stream_of(ex, args[0])
+    toks, pos = (ex.notes["toks"], ex.notes["pos"]) if st is None else (st["toks"], st["pos"])
     if pos == 0:
         return TP.loc(0, 0)
-    rng = ex.notes["toks"][pos - 1].fields[1]
+    rng = toks[pos - 1].fields[1]
     return vcopy(rng.fields[1])
 
 
@@ -511,6 +616,9 @@ def compare(got, want, faults, path="root", cols=None):
             compare(got[a], want[a], faults, f"{path}.{a}", cols=cols)
     elif k == "paren":
         compare(got.x, want.x, faults, path + ".x", cols=cols)
+    elif k == "fstr":
+        if [a for a, _ in got.segs] != [a for a, _ in want.segs]:
+            faults["shape"].append(f"{path}: f-string segments {[a for a, _ in got.segs]}, source {[a for a, _ in want.segs]}")
     elif k == "match":
         compare(got.s, want.s, faults, path + ".scrutinee", cols=cols)
         if len(got.cases) != len(want.cases):
@@ -593,6 +701,10 @@ def variable_idents(n, out):
     elif k == "cond":
         for a in "cxy":
             variable_idents(n[a], out)
+    elif k == "fstr":
+        for a, b in n.segs:
+            if a == "expr":
+                variable_idents(b, out)
     elif k == "match":
         variable_idents(n.s, out)
         for c in n.cases:
@@ -619,7 +731,7 @@ def variable_idents(n, out):
 
 # ----------------------------------------------------------------------------- terms, failure, truthiness
 def fails_of(ex, term):
-    if term[0] in ("bool", "lit", "null"):
+    if term[0] in ("bool", "lit", "null", "text"):
         return z3.BoolVal(False)
     if term[0] == "Not":
         # `!e` is e for a failing e and a bool otherwise (the value operation itself is decided by
@@ -668,7 +780,12 @@ def term_of_value(ex, v):
         if name == "List" and f and isinstance(f[0], VSeq) and isinstance(f[0].length, int):
             return ("list", tuple(term_of_value(ex, x) for x in f[0].items))
         if name == "Ident" and f:
+            tag = getattr(f[0], "tag", None) or ""
+            if tag.startswith("lit:"):
+                ex.notes.setdefault("spell", {})[f[0].vid] = tag[4:]      # a name the compiler wrote itself
             return ("identval", getattr(f[0], "vid", None))
+        if name == "String" and f:
+            return ("text", getattr(f[0], "vid", None))
     return ("opaque", vid)
 
 
@@ -676,10 +793,20 @@ def literal_token(ex, payload):
     """index of the literal token whose payload this integer is (decided by the solver)"""
     if not isinstance(payload, VInt):
         return None
+    il = ex.P.types.variant_index("Token", "IntLit")
+    fi = ex.P.types.variant_index("Token", "FStringLit")
+    cands = [(i, tw) for i, tw in enumerate(ex.notes["toks"])]
+    # literals inside embedded expressions are numbered (outer index, segment, index)
     for i, tw in enumerate(ex.notes["toks"]):
-        t = tw.fields[0]
-        il = ex.P.types.variant_index("Token", "IntLit")
-        f = t.fields.get(il)
+        ft = tw.fields[0].fields.get(fi) if isinstance(tw.fields[0].discr, int) and tw.fields[0].discr == fi else None
+        if ft:
+            for j, sg in enumerate(ft[0].items):
+                sv = sg.fields[sg.discr][0]
+                if (getattr(sv, "tag", "") or "").startswith("fexpr:"):
+                    kk = int(sv.tag.split(":")[1])
+                    cands += [(((i, j), n), t2) for n, t2 in enumerate(ex.notes["nested"][kk]["toks"])]
+    for i, tw in cands:
+        f = tw.fields[0].fields.get(il)
         if not f:
             continue
         a, b = f[0].bv, payload.bv
@@ -735,6 +862,13 @@ def m_interp_run_raw(ex, callee, args, ret_ty, frame):
     return ret
 
 
+def unref_all(ex, v):
+    for _ in range(4):
+        if isinstance(v, VRef):
+            v = ex.read(v.root, v.path)
+    return v
+
+
 def m_string_eq_lit(ex, callee, args, ret_ty, frame):
     """`ident == "_"`: identifiers of a template have known spellings"""
     a, b = unref_all(ex, args[0]), unref_all(ex, args[1])
@@ -745,13 +879,6 @@ def m_string_eq_lit(ex, callee, args, ret_ty, frame):
     return VBool(sa == sb)
 
 
-def unref_all(ex, v):
-    for _ in range(4):
-        if isinstance(v, VRef):
-            v = ex.read(v.root, v.path)
-    return v
-
-
 def m_get_type_none(ex, callee, args, ret_ty, frame):
     """`bindings.get_type(name)` in a match pattern: the identifiers of the templates are not type
     names (type patterns are outside the templates)"""
@@ -760,7 +887,9 @@ def m_get_type_none(ex, callee, args, ret_ty, frame):
 
 GRAMMAR_CFG = dict(TP.PARSE_CFG)
 GRAMMAR_CFG["loop_bound"] = 160
-GRAMMAR_CFG["models"] = [m for m in TP.PARSE_CFG["models"] if m[1] not in (TP.m_value_op, TP.m_location) and "is_truthy" not in m[0]] + [
+GRAMMAR_CFG["models"] = [
+    (r"^<dyn Tokenizer as Tokenizer>::peek$", m_peek), (r"^<dyn Tokenizer as Tokenizer>::next$", m_next), (r"^StringTokenizer::(<.*>::)?with_input$", m_with_input),
+] + [m for m in TP.PARSE_CFG["models"] if m[1] not in (TP.m_value_op, TP.m_location, TP.m_peek, TP.m_next) and "is_truthy" not in m[0]] + [
     (r"^<dyn Tokenizer as Tokenizer>::location$", m_location),
     (r"^<String as PartialEq<&?str>>::eq$", m_string_eq_lit), (r"^BindContext::(<.*>::)?get_type$", m_get_type_none),
     (r"^(CelValue::(or|and|lt|le|gt|ge|neq|in_|index|access)|<CelValue as (Add|Sub|Mul|Div|Rem|Not|Neg|CelValueDyn)>::(add|sub|mul|div|rem|not|neg|eq|access))$", m_fold_op),
@@ -834,6 +963,10 @@ def eval_tree(M, n):
         if c[0] != "bool":
             return c                      # a failing condition is the result
         return eval_tree(M, n.x if z3.is_true(c[1]) else n.y)
+    if k == "fstr":
+        # every segment goes through string(..): a text as it is, an embedded expression handed over unevaluated
+        segs = tuple(("call", ("fn", "string"), None, ((("text", b),) if a == "lit" else (thunk(M, b),))) for a, b in n.segs)
+        return ("fmt", segs)
     if k == "match":
         sv = eval_tree(M, n.s)
         for c in n.cases:
@@ -957,6 +1090,11 @@ def run_code(M, points, const_term):
                 pairs.append((key, val))
             pairs.reverse()
             stack.append(("map", tuple(pairs)))
+        elif name == "FmtString":
+            n = f[0].concrete()
+            segs = [pop() for _ in range(n)]
+            segs.reverse()
+            stack.append(("fmt", tuple(segs)))
         elif name == "Call":
             n = f[0].concrete()
             if not stack:
@@ -968,7 +1106,7 @@ def run_code(M, points, const_term):
                     raise Halt("pop from an empty stack")
                 args.append(stack.pop())
             if callee[0] == "identval":
-                stack.append(("call", ("fn", callee[1]), None, tuple(args)))
+                stack.append(("call", ("fn", ex.notes.get("spell", {}).get(callee[1], callee[1])), None, tuple(args)))
             elif callee[0] == "Access":
                 stack.append(("call", ("fn", callee[2]), callee[1], tuple(args)))
             else:
@@ -1043,9 +1181,9 @@ def make_const_term(ex, M):
 
 # ----------------------------------------------------------------------------- the check
 def scenario_of(ex):
-    def build(model):
+    def concrete(model, toks):
         out = []
-        for tw in ex.notes["toks"]:
+        for tw in toks:
             t = tw.fields[0]
             names = [v[0] for v in ex.adt_variants(t.ty)]
             idx = t.discr if isinstance(t.discr, int) else model.eval(t.discr, model_completion=True).as_long()
@@ -1055,8 +1193,21 @@ def scenario_of(ex):
                 out.append(("Ident", f[0].tag.split(":", 1)[1]))
             elif k == "IntLit":
                 out.append(("IntLit", model.eval(f[0].bv, model_completion=True).as_long()))
+            elif k == "FStringLit":
+                segs = []
+                for sg in f[0].items:
+                    sv = sg.fields[sg.discr][0]
+                    if variant(ex, sg) == "Lit":
+                        segs.append(("lit", sv.tag.split(":", 1)[1]))
+                    else:
+                        segs.append(("expr", concrete(model, ex.notes["nested"][int(sv.tag.split(":")[1])]["toks"])))
+                out.append(("FStringLit", segs))
             else:
                 out.append((k,))
+        return out
+
+    def build(model):
+        out = concrete(model, ex.notes["toks"])
         lay = ex.notes.get("layout")
         sc = {"kind": "grammar", "tokens": out}
         if lay is not None:
@@ -1155,7 +1306,17 @@ def check_grammar(res, V):
         # C17
         params = TP.params_of(cprog)
         must = set(variable_idents(want, []))
-        allid = {p for k, p in toks if k == "Ident"}
+        def idents_of(ts):
+            out = set()
+            for k, p in ts:
+                if k == "Ident":
+                    out.add(p)
+                elif k == "FStringLit":
+                    for sk, body in p:
+                        if sk == "expr":
+                            out |= idents_of(body)
+            return out
+        allid = idents_of(toks)
         V.check(ex, "every identifier in variable position is a reported parameter", params is not None and must <= set(params), assumed,
                 detail=lambda: f"`{text}`: reported {params}, variables {sorted(must)}", scenario=sc)
         V.check(ex, "every reported parameter is an identifier of the source", params is not None and set(params) <= allid, assumed,
@@ -1213,6 +1374,8 @@ TARGETS = [
     tgt("gram_call_chain", ["f", "LParen", "a", "RParen", "Dot", "g", "LParen", "b", "Comma", "c", "RParen"], "`f(a).g(b, c)`: calls chain left to right"),
     tgt("gram_lines", ["a", ("Add", "OrOr", "LessThan"), "b", ("Multiply", "Question"), "c", ("Colon", "Add"), "d", "LBracket", "e", "RBracket"],
         "`a + b * c + d[e]`, `a || b ? c : d[e]` ... with every token on its own line, each further left than the one before: spans are ordered by line first", layout=stairs),
+    tgt("gram_fstring", [{"fstring": [("expr", ["a", ("Add", "OrOr"), "@b"]), ("lit", " and "), ("expr", ["c"])]}, ("Add", "EqualEqual"), "d"],
+        "`f'{a op b} and {c}' + d`: every segment goes through string(), embedded expressions are compiled from their own text and handed over unevaluated, FmtString joins the segments in source order; their variables are parameters"),
     tgt("gram_match", ["Match", "s", "LBrace", "Case", ("EqualEqual", "NotEqual", "GreaterThan", "GreaterEqual", "LessThan", "LessEqual"), "p", "Colon", "x", "Comma", "Case", "_", "Colon", "y", "RBrace"],
         "`match s { case OP p: x, case _: y }` for the six pattern operators: the scrutinee is evaluated once, only the arm of the first matching case runs"),
     tgt("gram_match_eq", ["Match", "s", "LBrace", "Case", "@p", "Colon", "x", "Comma", "Case", "q", ("Add", "OrOr"), "r", "Colon", "y", ("Comma", "RBrace"), "RBrace"],
@@ -1227,4 +1390,4 @@ TARGETS = [
 # keeps each property's check to the templates that exercise its subject)
 for _t in TARGETS:
     lazy = any(k in _t["name"] for k in ("atoms", "cond", "paren3", "chain4", "list", "map", "match"))
-    _t["props"] = ["C02", "C09", "C17", "C18", "C10"] + (["C05"] if lazy else []) + (["C01"] if _t["name"] in ("gram_atoms2", "gram_call", "gram_unary") else [])
+    _t["props"] = ["C02", "C09", "C17", "C18", "C10"] + (["C05"] if lazy else []) + (["C01"] if _t["name"] in ("gram_atoms2", "gram_call", "gram_unary") else []) + (["C14"] if _t["name"] == "gram_fstring" else [])
